@@ -90,6 +90,7 @@ func H_C07_dense_setOwnIdx() {
 
 // dense delete
 func H_C07_dense_deleteIdx() {
+	vC07ToStringCalls = 0
 	w := vC07NewDense(nil)
 	a := w.a
 	idx := vNondetUint32("idx")
@@ -98,6 +99,13 @@ func H_C07_dense_deleteIdx() {
 	}
 	throw := vNondetBool("throw")
 	var ret bool
+	if !vSymbolic() {
+		// natively the stringification of the array is observed through an own toString method
+		a.val.self.setOwnStr("toString", vRuntime().ToValue(func(FunctionCall) Value {
+			vC07ToStringCalls++
+			return asciiString("x")
+		}), false)
+	}
 	out := vCatch(func() { ret = a._deleteIdxProp(idx, throw) })
 	blocked := false
 	for i := 0; i < w.n; i++ {
@@ -108,6 +116,8 @@ func H_C07_dense_deleteIdx() {
 	}
 	vAssert("delete:result", out.panicked || ret == !blocked)
 	vAssert("delete:TypeError-iff-nonconfigurable-and-throw", out.panicked == (blocked && throw))
+	// a delete that does not throw runs no user code (no stringification of the array for an unused message)
+	vAssert("delete:no-user-code-unless-throwing", throw || vC07ToStringCalls == 0)
 	vAssert("delete:length-unchanged", a.length == w.len0)
 	vAssert("delete:others-unchanged", w.othersUnchanged(idx))
 	if idx < uint32(w.n) && len(a.values) == w.n {
@@ -333,11 +343,19 @@ func H_C07_sparse_setOwnIdx() {
 }
 
 func H_C07_sparse_deleteIdx() {
+	vC07ToStringCalls = 0
 	w := vC07NewSparse(nil)
 	a := w.a
 	idx := vNondetUint32("idx")
 	throw := vNondetBool("throw")
 	var ret bool
+	if !vSymbolic() {
+		// natively the stringification of the array is observed through an own toString method
+		a.val.self.setOwnStr("toString", vRuntime().ToValue(func(FunctionCall) Value {
+			vC07ToStringCalls++
+			return asciiString("x")
+		}), false)
+	}
 	out := vCatch(func() { ret = a._deleteIdxProp(idx, throw) })
 	blocked := false
 	for i := 0; i < w.m; i++ {
@@ -349,6 +367,8 @@ func H_C07_sparse_deleteIdx() {
 	_, found := w.find(idx)
 	vAssert("sparse.delete:result", out.panicked || ret == !blocked)
 	vAssert("sparse.delete:TypeError-iff-nonconfigurable-and-throw", out.panicked == (blocked && throw))
+	// a delete that does not throw runs no user code (no stringification of the array for an unused message)
+	vAssert("sparse.delete:no-user-code-unless-throwing", throw || vC07ToStringCalls == 0)
 	vAssert("sparse.delete:length-unchanged", a.length == w.len0)
 	wantCount := w.m
 	if found && !blocked {
@@ -453,4 +473,13 @@ func H_C07_dense_defineIdx_toSparse() {
 	// known finding: a property element defined through the switching call is not counted
 	_, isProp := vC07SparseGet(sa, idx).(*valueProperty)
 	vAssertK("toSparse:propValueCount==#property-items", sa.propValueCount == vC07SparseProps(sa), isProp, "F-C07-define-switch-propcount")
+}
+
+
+// symbolic-mode replacement of (*Object).toString (stringifying an object runs user code): logged
+var vC07ToStringCalls int
+
+func vStubC07ObjToString(o *Object) String {
+	vC07ToStringCalls++
+	return asciiString("[object]")
 }
